@@ -295,6 +295,10 @@ class Ctx:
         fn = self.fn
         n = fn.nodes[i]
         k = n["k"]
+        if k == "call" and n.get("lambda"):
+            r = ("lambda", n.get("cm") or "?")
+            self._keycache[ck] = r
+            return r
         K = lambda j: self.key(j, inline, _depth + 1)
         if k == "ref":
             dk = n["dk"]
@@ -629,7 +633,31 @@ def guard_facts(fn, ctx, kill_on_mutation=True, effects=None):
             fs = ctx.cmp_fact(cond, truth, inline=True)
         except AnalysisBroken:
             return st
-        return st | frozenset(fs)
+        # what the taken edge implies for the enclosing logical expression: `a` true makes `a || b` true, `a` false makes
+        # `a && b` false.  These facts survive the join of the short-circuit edges, where neither operand alone does.
+        extra = []
+        try:
+            c, t = cond, truth
+            pm = fn.parent_map()
+            for _ in range(8):
+                p = pm.get(c)
+                if p is None:
+                    break
+                pn = fn.nodes[p]
+                if pn["k"] in ("paren", "cast") or (pn["k"] == "cast"):
+                    c = p
+                    continue
+                if pn["k"] == "un" and pn["op"] == "!":
+                    c, t = p, not t
+                    continue
+                if pn["k"] == "bin" and ((pn["op"] == "||" and t) or (pn["op"] == "&&" and not t)):
+                    extra.append(("true" if t else "false", ctx.key(p, True)))
+                    c = p
+                    continue
+                break
+        except AnalysisBroken:
+            pass
+        return st | frozenset(fs) | frozenset(extra)
 
     def meet(a, b):
         return a & b
